@@ -29,6 +29,8 @@ type Query implements Node {
   big(b: Big = B2, bs: [Big!]): Big
   wide: Wide
   dates(ds: [Date], dd: [[Date!]]): Int
+  grid: [[Pet!]!]!
+  cube(at: [[[Int]]]): [[[Result]]]
 }
 type Mutation { set(in: Filter!): Pet }
 type Subscription { tick(every: Int): Int tock: Int pet: Pet }
@@ -199,7 +201,7 @@ var fieldSel = []string{
 	`__schema { types { name } }`, `__type(name: "Pet") { name kind }`, `__type { name }`, `pet { kind }`, `pet { kind { x } }`, `pet { }`,
 	`search { __typename }`, `search { id }`, `search { ... on Pet { id } }`, `node(id: 1) { ... on Pet { kind } }`, `node(id: 1) { nick }`, `x: id`,
 	`id: node(id: 1) { id }`, `person { pets { owner { pets { id } } } }`, `pet { __typename owner { __typename } }`, `named { __schema { types { name } } }`,
-	`wide { f }`, `wide { fa fz }`, `x: big(b: B0)`, `search { ... on Named { name } }`, `search { ... on Node { id } }`, `search { ... on Robot { id } }`, `named { ... on Result { __typename } }`, `pet { ... on Thing { __typename } }`,
+	`grid { id }`, `grid`, `grid { nope }`, `cube { ... on Pet { id } }`, `cube { id }`, `wide { f }`, `wide { fa fz }`, `x: big(b: B0)`, `search { ... on Named { name } }`, `search { ... on Node { id } }`, `search { ... on Robot { id } }`, `named { ... on Result { __typename } }`, `pet { ... on Thing { __typename } }`,
 }
 
 var overlapSel = []string{
@@ -223,6 +225,8 @@ var linkSel = []string{
 	`...LG @tag(name: "s")`,
 	`b3: __schema { types { name fields { name } } }`,
 	`b4: __type(name: "Pet") { name kind }`,
+	`c1: grid { id owner { pets(first: $v) { id } } ... on Named { name(short: true) } }`,
+	`c2: cube(at: [[[1, $v]], [], null]) { __typename ... on Pet { id kind } }`,
 	`b5: named { __typename ... on Pet { owner { pets(first: 2) { id } } } ... on Node { id } }`,
 	`b6: req(a: 1, b: $v)`,
 	`b7: many(fs: {req: true, sub: {req: true}})`,
